@@ -296,7 +296,7 @@ theorem lstep_coherent (L : LZ) (op : LOp) (hc : LCoherent L)
         · cases he : eachMember (setNamesM (some (l.eraseIdx L.sd))) L.members with
           | mk ms o =>
             have := key (some (l.eraseIdx L.sd)); rw [he] at this
-            cases o <;> simp only [] <;> first | exact this.1 | exact this.2 _
+            cases o <;> simp only [] <;> first | exact this.2 _ | exact ⟨bs, dv, hgood, hsd⟩
   | insert i m =>
     obtain ⟨hcm, hsdm⟩ := hv i m rfl
     simp only [lstep, insertL]
